@@ -260,13 +260,21 @@ func (c *Conn) CloseWrite() error {
 
 func (c *Conn) IsClosed() bool { return c.closed.Load() }
 
-// Blocked reports whether a Read on this end is currently parked with an empty buffer.
-func (c *Conn) Blocked() bool { return c.waiting.Load() }
+// Blocked reports whether a Read on this end is parked with nothing to deliver: the
+// check is made under the buffer's lock, so data written by the peer but not yet consumed
+// counts as "not blocked".
+func (c *Conn) Blocked() bool {
+	h := c.in
+	h.mu.Lock()
+	defer h.mu.Unlock()
+	return c.waiting.Load() && len(h.buf) == 0 && !h.wclosed && !c.closed.Load()
+}
 
-// Quiescent reports whether both ends were parked in Read with nothing in flight, seen
-// three times in a row: neither side will ever make progress on its own.
+// Quiescent reports whether both ends are parked in Read with nothing in flight: when
+// only the two endpoints' own goroutines write, neither side can ever make progress
+// again (a protocol deadlock), whatever the machine load.
 func Quiescent(a, b *Conn) bool {
-	return a.Blocked() && b.Blocked() && a.Blocked()
+	return a.Blocked() && b.Blocked() && a.Blocked() && b.Blocked()
 }
 
 func (c *Conn) LocalAddr() net.Addr  { return c.local }
